@@ -27,8 +27,6 @@ const prelude = `(set-option :produce-models true)
 (declare-fun ofrune (Int) Str)
 (declare-fun tolower (Str) Str)
 (declare-fun slt (Str Str) Bool)
-(declare-fun at (Int Int) Int)
-(assert (forall ((o Int) (i Int)) (! (= (at o i) (+ o i)) :pattern ((at o i)))))
 (declare-fun f64.add (F64 F64) F64)
 (declare-fun f64.sub (F64 F64) F64)
 (declare-fun f64.mul (F64 F64) F64)
@@ -49,7 +47,7 @@ const prelude = `(set-option :produce-models true)
 (assert (forall ((a Str) (b Str) (k Int)) (! (= (sat (sconcat a b) k) (ite (< k (slen a)) (sat a k) (sat b (- k (slen a))))) :pattern ((sat (sconcat a b) k)))))
 (assert (forall ((a Str) (b Str)) (! (and (=> (= (slen a) 0) (= (sconcat a b) b)) (=> (= (slen b) 0) (= (sconcat a b) a))) :pattern ((sconcat a b)))))
 (assert (forall ((a (Array Int Int)) (o Int) (l Int)) (! (=> (>= l 0) (= (slen (ofbytes a o l)) l)) :pattern ((ofbytes a o l)))))
-(assert (forall ((a (Array Int Int)) (o Int) (l Int) (k Int)) (! (=> (and (<= 0 k) (< k l)) (= (sat (ofbytes a o l) k) (select a (+ o k)))) :pattern ((sat (ofbytes a o l) k)))))
+(assert (forall ((a (Array Int Int)) (o Int) (l Int) (k Int)) (! (=> (and (<= 0 k) (< k l) (<= 0 (select a (+ o k))) (<= (select a (+ o k)) 255)) (= (sat (ofbytes a o l) k) (select a (+ o k)))) :pattern ((sat (ofbytes a o l) k)))))
 (assert (forall ((s Str)) (! (= (slen (tolower s)) (slen s)) :pattern ((tolower s)))))
 `
 
@@ -476,4 +474,49 @@ func obligationOK(o *Obligation) bool {
 		return o.Result.Status != "unsat"
 	}
 	return o.Result.Status == "unsat"
+}
+
+// buildLemmaVC builds the proof obligation of a lemma: requires ==> ensures for arbitrary parameters.
+func buildLemmaVC(P *Program, C *Contracts, lm *Lemma) *FuncResult {
+	x := newExec(P, C, nil)
+	x.key = "lemma." + lm.Name
+	x.loopsNoMeasure = map[string]bool{}
+	res := &FuncResult{Key: x.key, exec: x}
+	defer func() {
+		if r := recover(); r != nil {
+			switch e := r.(type) {
+			case specErr:
+				res.Error = e.msg
+			case error:
+				res.Error = e.Error()
+			default:
+				res.Error = fmt.Sprintf("%v", r)
+			}
+		}
+	}()
+	st := &State{pc: True, cells: map[*ssa.Alloc]Value{}, heap: map[string]Term{}, ghost: map[string]Value{}}
+	st.epoch = x.newEpoch(0)
+	st.wm = x.declare("wm0", SInt)
+	env := &SpecEnv{x: x, st: st, vars: map[string]SVal{}, noHeap: true}
+	if p, ok := P.Pkgs[lm.Pkg]; ok {
+		env.pkg = p.Types
+	}
+	for _, p := range lm.Params {
+		T := x.resolveType(env, p.T)
+		ls := leavesOfS(T)
+		ts := make([]Term, len(ls))
+		for i, l := range ls {
+			ts[i] = x.fresh("in."+p.Name+l.Name, l.Sort)
+		}
+		env.vars[p.Name] = SVal{x.unflattenS(T, ts), T}
+	}
+	for _, c := range lm.Requires {
+		st.pc = x.andPC(st.pc, x.evalBool(env, c.E))
+	}
+	x.lemmasIn = true // a lemma is proved without the help of other lemmas
+	for _, c := range lm.Ensures {
+		x.check(st, "lemma", c.Tags, 0, lm.Name+": "+c.Text, x.evalBool(env, c.E))
+	}
+	res.Obls = x.obls
+	return res
 }
